@@ -19,7 +19,7 @@ import z3
 
 from vf.common import Plan, find_def
 from vf.pyvc.engine import (World, T, Int, Bool, Float, Label, LabelSort, NoneT, RecT, SeqT, TupleT, ListT, Rec, SeqV, PyList, FloatV,
-                            FuncRef, fresh, real_of, to_int_term, is_sym_bool, is_sym_int, seq_of)
+                            FuncRef, fresh, real_of, to_int_term, is_sym_bool, is_sym_int, seq_of, Unsupp, RaiseExc)
 from vf.pyvc.contract import FnContract, Case, LoopSpec, obligations_for
 from vf.pyvc.spec import And, Or, Not, Implies
 
@@ -350,7 +350,17 @@ def build(tier, seed):
 
     WRAPPED = ["untracked_execute", "untracked_compute_derivatives", "untracked_execute_and_compute_derivatives", "untracked_compute_jvp",
                "untracked_execute_and_compute_jvp", "untracked_compute_vjp", "untracked_execute_and_compute_vjp"]
-    xb = {"user_callback": cb_model, "get_num_shots_and_executions": lambda it, a, k: (a[0].f["nexec"], a[0].f["nshots"])}
+    holder_s = {}
+
+    def cb_model_s(it, args, kw):
+        """the user's callback inside the wrappers: logged, and counted in a ghost field of the device's tracker (a counter can be
+        carried through a loop cut, a python list of calls cannot)"""
+        cb_model(it, args, kw)
+        tr = holder_s["dev"].f["tracker"]
+        tr.f["__cbcount"] = tr.f.get("__cbcount", 0) + 1
+        return None
+
+    xb = {"user_callback": cb_model_s, "get_num_shots_and_executions": lambda it, a, k: (a[0].f["nexec"], a[0].f["nshots"])}
     for nm in WRAPPED:
         xb[nm] = untracked
     w_s = World(ST, classes={"Tracker": (TR, dict(TRACKER_FIELDS))},
@@ -378,7 +388,7 @@ def build(tier, seed):
                 "totals": SnapDict({k: fresh(ctx, Float if kd == "float" else Int, f"{name}.totals[{k}]") for k, kd in totals.items()}),
                 "history": h,
                 "latest": SnapDict({k: fresh(ctx, VALT[kd], f"{name}.latest[{k}]") for k, kd in latest.items()}),
-                "__ctx": ctx})
+                "__ctx": ctx, "__cbcount": 0})
 
         def gen(rng):
             def val(kd):
@@ -602,7 +612,9 @@ def build(tier, seed):
         ci = w_s.classes["Device"]
 
         def mk(ctx, name):
-            return Rec(ci, {"tracker": tt.args[0](ctx, name + ".tracker"), "ret": ret_mk(ctx), "__log": []})
+            dev = Rec(ci, {"tracker": tt.args[0](ctx, name + ".tracker"), "ret": ret_mk(ctx), "__log": []})
+            holder_s["dev"] = dev
+            return dev
 
         def gen(rng):
             return {"__class__": "Device", "tracker": tt.kw["gen"](rng), "ret": ret_gen(rng)}
@@ -628,6 +640,10 @@ def build(tier, seed):
 
     def ret_of(dev):
         return dev.f["ret"] if is_sym(dev) else dev._ret
+
+    def cbcount(tr):
+        """number of callback invocations (record() calls with a callback installed)"""
+        return tr.f["__cbcount"] if is_sym(tr) else len(tr._cblog)
 
     def circuits_list(c):
         """python list of the circuits of a concrete-shape argument (single circuit / tuple / list)"""
@@ -661,10 +677,10 @@ def build(tier, seed):
         """common postcondition of the seven wrappers"""
         otr, ntr = tr_of(o.self), tr_of(n.self)
         act = otr.f["active"] if is_sym(otr) else otr.active
-        ncb = len(cblog(ntr))
+        ncb = cbcount(ntr)
         return And(same(r, ret_of(n.self)), called_once(o, n, names), flags_same(otr, ntr),
-                   Implies(act, And(state_after(otr, ntr, updates), ncb == n_records)),
-                   Implies(Not(act), And(state_after(otr, ntr, []), ncb == 0)))
+                   Implies(act, And(state_after(otr, ntr, updates), veq(ncb, n_records))),
+                   Implies(Not(act), And(state_after(otr, ntr, []), veq(ncb, 0))))
 
     def native_wrapper(outer, names):
         def call(mod, a):
@@ -778,6 +794,192 @@ def build(tier, seed):
         contracts.append(FnContract(w_s, f"{outer}.<locals>.{inner}", cases))
     plan.size_bounds.append(f"_track_execute_and_compute_{{derivatives,jvp,vjp}}: single circuit, tuples of 0..{MAXB} circuits, list of 2; "
                             "_track_compute_{derivatives,jvp,vjp}: batches of ANY length (symbolic-length tuple) + single circuit")
+
+    # =====================================================================================================================
+    # batches of ANY length through the loops of execute / execute_and_compute_*: loop invariants over spec functions.
+    # Spec functions (uninterpreted; only instances of their defining equations are assumed, at the loop index):
+    #   ones(i) = [1]*i;  E(b,i) = [nexec(c) for c in b[:i]];  S(b,i) = [nshots(c) for c in b[:i] if c.shots];  R(b,i) = [res(c) for c in b[:i]]
+    #   P(r,i) = r[:i];  sumE(b,i) = sum(E(b,i));  sumS(b,i) = sum(S(b,i))
+    # Dictionary SHAPES that change inside a loop (`latest` is replaced by every update) are handled by a havoc that FORKS over the finitely
+    # many shapes the invariant allows (initial shape with i == 0 / shape after an iteration), so the cut covers every reachable state.
+    QSs = w_s.sort_of(QS)
+    SQ, ISs, LSs = z3.SeqSort(QSs), z3.SeqSort(z3.IntSort()), z3.SeqSort(LabelSort)
+    fidx = {f_: k_ for k_, f_ in enumerate(QS_FIELDS)}
+
+    def qf(term, field):
+        return QSs.accessor(0, fidx[field])(term)
+    PAIR = TupleT(Label, QS)
+    PS = w_s.sort_of(PAIR)
+    mkp = PS.constructor(0)
+    I_ = z3.IntSort()
+    ONES = z3.Function("ones", I_, ISs)
+    EXS, SHS, RES = z3.Function("E_prefix", SQ, I_, ISs), z3.Function("S_prefix", SQ, I_, ISs), z3.Function("R_prefix", SQ, I_, LSs)
+    PRE = z3.Function("P_prefix", LSs, I_, LSs)
+    SUME, SUMS = z3.Function("sumE_prefix", SQ, I_, I_), z3.Function("sumS_prefix", SQ, I_, I_)
+
+    def spec_defs(b, r, k):
+        """instances of the defining equations at index k"""
+        k = to_int_term(k)
+        inb = z3.And(k >= 0, k < z3.Length(b))
+        c = b[k]
+        on = qf(c, "shots")
+        out = [ONES(0) == z3.Empty(ISs), z3.Implies(k >= 0, ONES(k + 1) == z3.Concat(ONES(k), z3.Unit(z3.IntVal(1)))),
+               EXS(b, 0) == z3.Empty(ISs), z3.Implies(inb, EXS(b, k + 1) == z3.Concat(EXS(b, k), z3.Unit(qf(c, "nexec")))),
+               SHS(b, 0) == z3.Empty(ISs),
+               z3.Implies(inb, SHS(b, k + 1) == z3.If(on, z3.Concat(SHS(b, k), z3.Unit(qf(c, "nshots"))), SHS(b, k))),
+               RES(b, 0) == z3.Empty(LSs), z3.Implies(inb, RES(b, k + 1) == z3.Concat(RES(b, k), z3.Unit(qf(c, "res")))),
+               SUME(b, 0) == 0, z3.Implies(inb, SUME(b, k + 1) == SUME(b, k) + qf(c, "nexec")),
+               SUMS(b, 0) == 0, z3.Implies(inb, SUMS(b, k + 1) == SUMS(b, k) + z3.If(on, qf(c, "nshots"), 0))]
+        if r is not None:
+            out += [PRE(r, 0) == z3.Empty(LSs), z3.Implies(z3.And(k >= 0, k < z3.Length(r)), PRE(r, k + 1) == z3.Concat(PRE(r, k), z3.Unit(r[k])))]
+        return out
+
+    def b_zip(it, args, kw):
+        """zip(results, batch, strict=True) over two symbolic-length sequences: the sequence of pairs (element facts are supplied as
+        instances at the loop index by the loop contract)"""
+        if not any(isinstance(a, SeqV) for a in args):
+            return it.b_zip(args, kw, None)
+        if len(args) != 2 or not all(isinstance(a, SeqV) for a in args) or not kw.get("strict"):
+            raise Unsupp("symbolic zip: only zip(a, b, strict=True) of two symbolic-length sequences is modelled")
+        a, b = args
+        if not it.ctx.branch(z3.Length(a.term) == z3.Length(b.term)):
+            raise RaiseExc("ValueError")
+        z = z3.Const(it.ctx.fresh_name("zipped"), z3.SeqSort(PS))
+        it.ctx.assume(z3.Length(z) == z3.Length(a.term))
+        it.ctx.ghost["zip"] = (z, a.term, b.term)
+        it.ctx.havocked = True
+        return SeqV(z, PAIR, False)
+    w_s.extra_builtins["zip"] = b_zip
+
+    STEADY = tr_shape("steady")
+
+    def havoc_tracker(latest_shapes):
+        """a tracker with the steady key sets whose `latest` has one of the given shapes (the path forks over them)"""
+        ci = w_s.classes["Tracker"]
+
+        def mk(ctx, name):
+            pick = len(latest_shapes) - 1
+            for j in range(len(latest_shapes) - 1):
+                if ctx.branch(z3.Bool(ctx.fresh_name(f"latest_shape_{j}"))):
+                    pick = j
+                    break
+            lat = latest_shapes[pick]
+            return Rec(ci, {
+                "persistent": fresh(ctx, Bool, name + ".persistent"), "active": fresh(ctx, Bool, name + ".active"), "callback": CB,
+                "totals": SnapDict({k: fresh(ctx, Int, f"{name}.totals[{k}]") for k in STEADY["totals"]}),
+                "history": SnapDict({k: fresh(ctx, SeqT(ELEM[kd]), f"{name}.history[{k}]") for k, kd in STEADY["hist"].items()}),
+                "latest": SnapDict({k: fresh(ctx, VALT[kd], f"{name}.latest[{k}]") for k, kd in lat.items()}),
+                "__ctx": ctx, "__cbcount": fresh(ctx, Int, name + ".cbcount")})
+        return T("build", mk, gen=lambda rng: None)
+
+    def frame(tr, T0, exp_h, exp_t):
+        """histories / totals of tr are those of T0 except for the prescribed keys; flags untouched"""
+        H, H0, TT, TT0 = tr.f["history"], T0.f["history"], tr.f["totals"], T0.f["totals"]
+        if set(H) != set(H0) or set(TT) != set(TT0):
+            return False
+        conj = [veq(tr.f["active"], T0.f["active"]), veq(tr.f["persistent"], T0.f["persistent"]), tr.f["callback"] is T0.f["callback"]]
+        for k in H:
+            if not isinstance(H[k], SeqV) or not isinstance(H0[k], SeqV):
+                return False
+            conj.append(H[k].term == (z3.Concat(H0[k].term, exp_h[k]) if k in exp_h else H0[k].term))
+        for k in TT:
+            conj.append(to_int_term(TT[k]) == (to_int_term(TT0[k]) + exp_t[k] if k in exp_t else to_int_term(TT0[k])))
+        return And(*conj)
+
+    def latest_is(tr, shapes):
+        """shapes: list of (condition, {key: value}); the python-level key set selects the candidates"""
+        lat = tr.f["latest"]
+        alts = []
+        for cond, d in shapes:
+            if set(lat) == set(d):
+                alts.append(And(cond, *[veq(lat[k], v) for k, v in d.items()]))
+        return Or(*alts) if alts else False
+
+    # ---- execute ---------------------------------------------------------------------------------------------------------------
+    def exec_state(tr, T0, b, r, i):
+        i = to_int_term(i)
+        last = b[i - 1]
+        per_circuit = {"simulations": 1, "executions": qf(last, "nexec"), "results": r[i - 1], "resources": qf(last, "res")}
+        return And(frame(tr, T0,
+                         {"batches": z3.Unit(z3.IntVal(1)), "simulations": ONES(i), "executions": EXS(b, i), "results": PRE(r, i),
+                          "resources": RES(b, i), "shots": SHS(b, i)},
+                         {"batches": 1, "simulations": i, "executions": SUME(b, i), "shots": SUMS(b, i)}),
+                   veq(tr.f["__cbcount"], 1 + i),
+                   latest_is(tr, [(i == 0, {"batches": 1}),
+                                  (z3.And(i >= 1, z3.Not(qf(last, "shots"))), per_circuit),
+                                  (z3.And(i >= 1, qf(last, "shots")), dict(per_circuit, shots=qf(last, "nshots")))]))
+
+    def exec_inv(v):
+        dev = v.self
+        return And(len(dev.f["__log"]) == 1, exec_state(dev.f["tracker"], v.old.self.f["tracker"], v.batch.term, v.batch_results.term, v._i0))
+
+    def loop_axioms(with_results):
+        def ax(v):
+            b = v.batch.term
+            r = v.batch_results.term if with_results else None
+            out = spec_defs(b, r, v._i0)
+            zp = getattr(v.ghost, "zip", None)
+            if zp is not None:
+                z, a_, b_ = zp
+                i = to_int_term(v._i0)
+                out.append(z3.Implies(z3.And(i >= 0, i < z3.Length(z)), z[i] == mkp(a_[i], b_[i])))
+            return out
+        return ax
+
+    PER = {"simulations": "int", "executions": "int", "results": "obj", "resources": "obj"}
+    EXEC_HAVOC = havoc_tracker([{"batches": "int"}, PER, dict(PER, shots="int")])
+
+    def exec_seq_ens(o, r, n):
+        if not is_sym(o.self):
+            return wrapper_post(o, r, n, NM2, exec_updates(o, ret_of(n.self)), 1 + len(o.circuits))
+        otr, ntr = tr_of(o.self), tr_of(n.self)
+        act = otr.f["active"]
+        b, rr = o.circuits.term, ret_of(n.self).term
+        return And(same(r, ret_of(n.self)), called_once(o, n, NM2),
+                   Implies(act, exec_state(ntr, otr, b, rr, z3.Length(b))),
+                   Implies(Not(act), And(state_after(otr, ntr, []), flags_same(otr, ntr), veq(cbcount(ntr), 0))))
+
+    seq_ret = (lambda ctx: fresh(ctx, SeqT(Label, tuple=True), "ret")), (lambda rng: tuple(f"L{rng.randint(20, 40)}" for _ in range(2)))
+    contracts.append(FnContract(w_s, "_track_execute.<locals>.execute", [
+        Case("seq-tracker-steady-results-obj", {"self": device_t(STEADY, *seq_ret), "circuits": circ_t("seq"), "execution_config": Label},
+             requires=lambda a: (z3.Length(ret_of(a.self).term) == z3.Length(a.circuits.term)) if is_sym(a.self) else len(ret_of(a.self)) == len(a.circuits),
+             ensures=exec_seq_ens, loops={0: LoopSpec(exec_inv, types={"self.tracker": EXEC_HAVOC}, axioms=loop_axioms(True))},
+             native_gen=lambda rng, m: fix_model(rng, m, ("circuits",)), native_call=native_wrapper("_track_execute", NM2))]))
+
+    # ---- execute_and_compute_{derivatives, jvp, vjp} ------------------------------------------------------------------------------
+    def res_inv(v):
+        dev = v.self
+        T0 = v.old.self.f["tracker"]
+        b = v.batch.term
+        i = to_int_term(v._i0)
+        tr = dev.f["tracker"]
+        return And(len(dev.f["__log"]) == 0, frame(tr, T0, {"resources": RES(b, i)}, {}), veq(tr.f["__cbcount"], 0),
+                   latest_is(tr, [(i == 0, dict(T0.f["latest"])), (i >= 1, {"resources": qf(b[i - 1], "res")})]))
+
+    RES_HAVOC = havoc_tracker([STEADY["latest"], {"resources": "obj"}])
+    for outer, inner, names, bk, ck in (
+            ("_track_execute_and_compute_derivatives", "execute_and_compute_derivatives", NM2, "execute_and_derivative_batches", "derivatives"),
+            ("_track_execute_and_compute_jvp", "execute_and_compute_jvp", ("circuits", "tangents", "execution_config"), "execute_and_jvp_batches", "jvps"),
+            ("_track_execute_and_compute_vjp", "execute_and_compute_vjp", ("circuits", "cotangents", "execution_config"), "execute_and_vjp_batches", "vjps")):
+        def ens(o, r, n, names=names, bk=bk, ck=ck):
+            if not is_sym(o.self):
+                return wrapper_post(o, r, n, names, loop_updates(bk, ck)(o), 1)
+            otr, ntr = tr_of(o.self), tr_of(n.self)
+            act = otr.f["active"]
+            b = o.circuits.term
+            nn = z3.Length(b)
+            return And(same(r, ret_of(n.self)), called_once(o, n, names),
+                       Implies(act, And(frame(ntr, otr, {"resources": RES(b, nn), bk: z3.Unit(z3.IntVal(1)), "executions": z3.Unit(nn), ck: z3.Unit(nn)},
+                                              {bk: 1, "executions": nn, ck: nn}),
+                                        veq(cbcount(ntr), 1), latest_is(ntr, [(True, {bk: 1, "executions": nn, ck: nn})]))),
+                       Implies(Not(act), And(state_after(otr, ntr, []), flags_same(otr, ntr), veq(cbcount(ntr), 0))))
+        params = {"self": device_t(STEADY, one_m, one_g), "circuits": circ_t("seq")}
+        for p in names[1:]:
+            params[p] = Label
+        contracts.append(FnContract(w_s, f"{outer}.<locals>.{inner}", [
+            Case("seq-tracker-steady", params, ensures=ens,
+                 loops={0: LoopSpec(res_inv, types={"self.tracker": RES_HAVOC}, axioms=loop_axioms(False))},
+                 native_gen=lambda rng, m: fix_model(rng, m, ("circuits",)), native_call=native_wrapper(outer, names))]))
 
     # =====================================================================================================================
     # simulator_tracking: the class decorator wires every overridden entry point to ITS wrapper
